@@ -13,9 +13,9 @@
    * parsing: the model defines the ACCEPTED LANGUAGE and the FIRST error (it stops at the first error_at the
      Rust parser would execute); it is total in the sense "function, first error, or out of fuel"
      (C03_parse_total); a first error carries a line >= 1 (C03_first_error_has_line), also on the whole pipeline
-     (C03_source_error_has_line).  Fuel sufficiency (POutOfFuel never happens with default_fuel) is NOT
-     proved here (ParserProofs.parse_fuel_enough_partial is the parser agent's; the driver counts POutOfFuel
-     verdicts, expected 0).
+     (C03_source_error_has_line).  Fuel sufficiency (POutOfFuel never happens with default_fuel) is proved only
+     for the operator expression fragment (C03_parse_fuel_enough_partial, parser agent's Pratt.pratt_roundtrip_tokens);
+     the driver counts POutOfFuel verdicts (0 in every run).
    * the tables: the Pratt table, the Precedence and TokenKind enumerations, the keyword table and three
      limits of the model are EQUAL to the ones regenerated from the current compiler.rs / scanner.rs /
      common.rs (C03_rules_table, ...): a changed precedence, a swapped handler, a new keyword or token kind
@@ -27,7 +27,7 @@
    generator on every generated text, the code-emission limits (jump/loop/constant-pool sizes). *)
 From Coq Require Import List NArith Arith Lia.
 From YVGen Require Import Consts Rules Tokens.
-From YV Require Import Utf8 Scanner ScannerProofs ParserRules Parser ParseRun C03Run TotalityProofs.
+From YV Require Import Utf8 Ast Scanner ScannerProofs ParserRules Parser ParseRun ParserProofs C03Run TotalityProofs.
 Import ListNotations.
 
 (* ---------- the tables of the model are the tables of the current source ---------- *)
@@ -102,6 +102,16 @@ Proof. exact first_error_has_line_tokens. Qed.
 Theorem C03_source_error_has_line : forall src l a m, parse_source src = PErr l a m -> (1 <= l)%N.
 Proof. exact first_error_has_line. Qed.
 
+(* fuel sufficiency as far as proved (parser agent's ParserProofs.v): on the operator fragment (literals, variables,
+   unary, binary, and/or, range - unbounded size) the canonical token rendering parses back with default_fuel, hence
+   never POutOfFuel there; for statements only the depth argument of PARSER_REPORT.md section 5 exists *)
+Theorem C03_parse_fuel_enough_partial : forall e, Pratt.frag e ->
+  parse_expr (Pratt.tk_expr 1 e ++ [Pratt.eof1]) = POk e.
+Proof. exact Pratt.pratt_roundtrip_tokens. Qed.
+(* `infix_rule.unwrap()` of parse_precedence never sees None *)
+Theorem C03_rules_infix_total : forall k, r_prec (rules_ref k) <> PrecNone -> r_infix (rules_ref k) <> None.
+Proof. exact rules_infix_total. Qed.
+
 Print Assumptions C03_rules_known.
 Print Assumptions C03_rules_table.
 Print Assumptions C03_rules_length.
@@ -121,3 +131,5 @@ Print Assumptions C03_interp_depth_bounded.
 Print Assumptions C03_parse_total.
 Print Assumptions C03_first_error_has_line.
 Print Assumptions C03_source_error_has_line.
+Print Assumptions C03_parse_fuel_enough_partial.
+Print Assumptions C03_rules_infix_total.
